@@ -214,7 +214,7 @@ func (g *gen) genRemove(s *Ref) *Op {
 		if len(present) > 0 && g.rng.Intn(4) > 0 {
 			t = g.pick(present)
 		}
-		return &Op{Kind: "removeKeyed", Type: t, KeyKind: g.pick([]string{"nil", "empty", "empty", "int", "struct"})}
+		return &Op{Kind: "removeKeyed", Type: t, KeyKind: g.pick([]string{"nil", "empty", "empty", "int", "int1", "int1", "int2", "struct"})}
 	}
 	var present []ident
 	for id := range s.svc {
